@@ -431,3 +431,239 @@ func ruleHandoverReset(c *Ctx) {
 		})
 	}
 }
+
+// ruleBuilderCarries (R-BUILDER-CARRIES, package cache): a builder method of Config (value receiver, returns a
+// Config) that hands back a freshly written composite literal instead of the modified copy of its receiver must
+// fill in every field: a field the literal leaves out is reset to its zero value, and a setting made earlier in
+// the chain (New(n, LRU().OnEvict(f).WithSize(g))) is silently lost — the callback never runs.
+func ruleBuilderCarries(c *Ctx) {
+	c.rule("R-BUILDER-CARRIES", 0, "a Config builder that returns a fresh literal sets every field of it")
+	cfgT := c.P.Named("cache", "Config")
+	if cfgT == nil {
+		return
+	}
+	fields := structFields(cfgT)
+	for _, fn := range c.P.PkgFuncs("cache") {
+		fn := fn
+		r := fn.Signature.Recv()
+		if r == nil || fn.Parent() != nil || !isNamedOrigin(r.Type(), cfgT) || fn.Signature.Results().Len() != 1 || !isNamedOrigin(fn.Signature.Results().At(0).Type(), cfgT) {
+			continue
+		}
+		if _, isPtr := r.Type().(*types.Pointer); isPtr {
+			continue
+		}
+		n := 0
+		allInstrs(fn, func(in ssa.Instruction) {
+			ret, ok := in.(*ssa.Return)
+			if !ok {
+				return
+			}
+			a, ok := loadAddr(ret.Results[0])
+			if !ok {
+				return
+			}
+			al, ok := a.(*ssa.Alloc)
+			if !ok || al.Comment != "complit" {
+				return
+			}
+			set := map[*types.Var]bool{}
+			for _, rf := range referrersOf(al) {
+				fa, ok := rf.(*ssa.FieldAddr)
+				if !ok {
+					continue
+				}
+				for _, r2 := range referrersOf(fa) {
+					if st, ok := r2.(*ssa.Store); ok && st.Addr == ssa.Value(fa) {
+						_, f := fieldVarOf(fa)
+						if f != nil {
+							set[f.Origin()] = true
+						}
+					}
+				}
+			}
+			var missing []string
+			for _, f := range fields {
+				if !set[f.Origin()] {
+					missing = append(missing, f.Name())
+				}
+			}
+			n++
+			c.sawFn(fnName(fn))
+			c.judge(len(missing) == 0, "R-BUILDER-CARRIES", fmt.Sprintf("%s:returned literal #%d", fnName(fn), n), ret.Pos(), "every field set", fmt.Sprintf("the builder returns a fresh Config whose field(s) %v are left at their zero value: a setting made earlier in the chain is lost (an eviction callback registered before this call never runs; a size function is replaced by the default)", missing))
+		})
+	}
+}
+
+// ruleNilRing (R-NIL-RING, package ring): the operations documented to accept an empty (nil) ring — String, Pop, At,
+// Peek, Each, Len, IsEmpty — do not reach a dereference of the receiver (a link or value access, or a helper or method
+// that makes one on that argument) except where the receiver is known to be non-nil.  Next, Prev and Join are
+// documented to panic on a nil ring and are not in the table.
+func ruleNilRing(c *Ctx) {
+	c.rule("R-NIL-RING", 5, "the nil-tolerant operations of ring.Ring dereference the receiver only under r != nil")
+	memo := map[string][]ssa.Instruction{}
+	var derefs func(fn *ssa.Function, pi int, depth int) []ssa.Instruction
+	derefs = func(fn *ssa.Function, pi int, depth int) []ssa.Instruction {
+		key := fmt.Sprintf("%p/%d", fn, pi)
+		if r, ok := memo[key]; ok {
+			return r
+		}
+		memo[key] = nil
+		if fn == nil || fn.Blocks == nil || pi >= len(fn.Params) || depth > 4 {
+			return nil
+		}
+		p := ssa.Value(fn.Params[pi])
+		nonNilAt := func(b *ssa.BasicBlock) bool {
+			for _, cm := range cmpsAt(b) {
+				if cm.Op == token.NEQ && ((cm.X == p && isNilConst(cm.Y)) || (cm.Y == p && isNilConst(cm.X))) {
+					return true
+				}
+			}
+			return false
+		}
+		// the receiver, or a cursor that can still hold it (cur := r; for … { cur = step(cur) })
+		alias := map[ssa.Value]bool{p: true}
+		for changed := true; changed; {
+			changed = false
+			allInstrs(fn, func(in ssa.Instruction) {
+				if ph, ok := in.(*ssa.Phi); ok && !alias[ph] {
+					for _, e := range ph.Edges {
+						if alias[e] {
+							alias[ph] = true
+							changed = true
+						}
+					}
+				}
+			})
+		}
+		var out []ssa.Instruction
+		for _, f := range withClosures(fn) {
+			if f != fn {
+				continue // closures see the receiver through a capture: not followed
+			}
+			allInstrs(f, func(in ssa.Instruction) {
+				if nonNilAt(in.Block()) {
+					return
+				}
+				switch x := in.(type) {
+				case *ssa.FieldAddr:
+					if alias[x.X] {
+						out = append(out, in)
+					}
+				case *ssa.UnOp:
+					if x.Op == token.MUL && alias[x.X] {
+						out = append(out, in)
+					}
+				case *ssa.Call:
+					cal := staticCallee(&x.Call)
+					for j, a := range x.Call.Args {
+						if !alias[a] {
+							continue
+						}
+						switch {
+						case cal != nil && cal.Blocks != nil && cal.Pkg == origin(fn).Pkg:
+							if len(derefs(cal, j, depth+1)) > 0 {
+								out = append(out, in)
+							}
+						case cal == nil && !x.Call.IsInvoke():
+							// a step handed in as a function value ((*Ring).Next): it is applied to the receiver
+							if _, isBuiltin := x.Call.Value.(*ssa.Builtin); !isBuiltin {
+								if _, isRing := a.Type().Underlying().(*types.Pointer); isRing && a != p || a == p {
+									if sg, ok := x.Call.Value.Type().Underlying().(*types.Signature); ok && sg.Params().Len() == 1 && types.Identical(sg.Params().At(0).Type(), a.Type()) && sg.Results().Len() == 1 && types.Identical(sg.Results().At(0).Type(), a.Type()) {
+										out = append(out, in)
+									}
+								}
+							}
+						}
+					}
+				}
+			})
+		}
+		memo[key] = out
+		return out
+	}
+	for _, name := range []string{"String", "Pop", "At", "Peek", "Each", "Len", "IsEmpty"} {
+		fn := c.P.Func("ring", "Ring", name)
+		if fn == nil {
+			continue
+		}
+		c.sawFn(fnName(fn))
+		bad := derefs(fn, 0, 0)
+		where := ""
+		if len(bad) > 0 {
+			where = c.P.pos(instrPos(bad[0]))
+		}
+		c.judge(len(bad) == 0, "R-NIL-RING", fnName(fn)+":nil receiver", fn.Pos(), "no dereference of the receiver outside r != nil", fmt.Sprintf("%s is documented to accept an empty (nil) ring, but reaches a dereference of its receiver at %s on a path where r != nil is not known: the empty ring panics instead of answering", name, where))
+	}
+}
+
+// ruleGapReposition (R-GAP-REPOSITION, mdiff.New): where New finds a gap after the current chunk (a running position
+// compared with the chunk's LEnd / REnd), every way through the block that handles the gap gives the chunk that is
+// current afterwards its left start — whether a new chunk is allocated or the empty one taken over.  A path that
+// skips it leaves the taken-over chunk at the position it was created with.
+func ruleGapReposition(c *Ctx) {
+	c.rule("R-GAP-REPOSITION", 0, "in New every path through the gap block sets the current chunk's start from the running position")
+	fn := c.P.Func("mdiff", "", "New")
+	chunkT := c.P.Named("mdiff", "Chunk")
+	if fn == nil || chunkT == nil {
+		return
+	}
+	isEndLoad := func(v ssa.Value) bool {
+		base, f := loadedField(v)
+		return f != nil && base != nil && isNamedOrigin(base.Type(), chunkT) && (f.Name() == "LEnd" || f.Name() == "REnd")
+	}
+	isGapIf := func(b *ssa.BasicBlock) (*ssa.If, bool) {
+		iff, ok := b.Instrs[len(b.Instrs)-1].(*ssa.If)
+		if !ok {
+			return nil, false
+		}
+		cm, ok := edgeCmp(iff, 0)
+		if !ok || cm.Op != token.GTR && cm.Op != token.LSS {
+			return nil, false
+		}
+		return iff, (isEndLoad(cm.Y) && isIntType(cm.X.Type())) || (isEndLoad(cm.X) && isIntType(cm.Y.Type()))
+	}
+	setsStart := func(in ssa.Instruction) bool {
+		st, ok := in.(*ssa.Store)
+		if !ok {
+			return false
+		}
+		fa, ok := st.Addr.(*ssa.FieldAddr)
+		if !ok || !isNamedOrigin(fa.X.Type(), chunkT) {
+			return false
+		}
+		_, f := fieldVarOf(fa)
+		if f == nil || f.Name() != "LStart" {
+			return false
+		}
+		_, isConst := st.Val.(*ssa.Const)
+		return !isConst
+	}
+	done := map[*ssa.BasicBlock]bool{}
+	n := 0
+	for _, b := range fn.Blocks {
+		iff, ok := isGapIf(b)
+		if !ok || done[b] {
+			continue
+		}
+		body := b.Succs[0]
+		// the join: past the other disjuncts of the same test
+		join := b.Succs[1]
+		done[b] = true
+		for k := 0; k < 3; k++ {
+			if i2, ok2 := isGapIf(join); ok2 && join.Succs[0] == body {
+				done[join] = true
+				_ = i2
+				join = join.Succs[1]
+			} else {
+				break
+			}
+		}
+		if len(body.Instrs) == 0 {
+			continue
+		}
+		n++
+		c.sawFn(fnName(fn))
+		skip, wit := reachesWithout(c.P, body.Instrs[0], true, func(x ssa.Instruction) bool { return x.Block() == join }, setsStart)
+		c.judge(!skip, "R-GAP-REPOSITION", fmt.Sprintf("%s:gap block #%d", fnName(fn), n), iff.Cond.Pos(), "every path sets the chunk's start", "the block that handles a gap after the current chunk can be left ("+wit+") without giving the chunk that is current afterwards its start from the running position: an empty chunk that is taken over keeps the place it was created at, and its ranges no longer frame its edits")
+	}
+}
